@@ -133,13 +133,14 @@ Proof.
       eexists; eexists; (split; [|reflexivity]); vm_compute; reflexivity.
 Qed.
 
-Definition block_shape (b : str) : Prop := exists toks, b = concat toks /\ Forall tok toks.
+Definition block_shape (b : str) : Prop := exists toks, b = concat toks /\ Forall tok toks /\ toks <> [].
 
 Lemma unpacker_block t x : search aliquot_unpacker_regex aliquot_unpacker_regex_ng t = Some x -> block_shape (group0 t x).
 Proof.
   intros H. apply search_lang in H. destruct unpacker_shape as (w1 & w2 & E). rewrite E in H. cbn [lang] in H.
-  destruct H as (u1 & u2 & -> & -> & (u3 & u4 & -> & (ws & -> & F & _) & ->)). cbn [app]. rewrite app_nil_r.
-  exists ws. split; [reflexivity|]. eapply Forall_impl; [|exact F]. intros w Hw. exact (lang_tok w Hw).
+  destruct H as (u1 & u2 & -> & -> & (u3 & u4 & -> & (ws & -> & F & Hn & _) & ->)). cbn [app]. rewrite app_nil_r.
+  exists ws. split; [reflexivity|]. split; [eapply Forall_impl; [|exact F]; intros w Hw; exact (lang_tok w Hw)|].
+  intros ->. cbn in Hn. lia.
 Qed.
 
 (* two adjacent letters of a block are a quarter; every character is a letter or a fraction sign *)
@@ -223,7 +224,7 @@ Definition good_comps (l : list (option str)) : Prop := exists comps, comps_of_s
 
 Lemma block_components b : block_shape b -> good_comps (components_of_text b).
 Proof.
-  intros (toks & -> & F). destruct (tokens_ok toks F) as [HA HC]. set (b := concat toks) in *. unfold components_of_text.
+  intros (toks & -> & F & _). destruct (tokens_ok toks F) as [HA HC]. set (b := concat toks) in *. unfold components_of_text.
   assert (K : forall x, In x (finditer single_aliquot_unpacker_regex single_aliquot_unpacker_regex_ng b) ->
               exists v c, group b x single_aliquot_unpacker_regex_g_aliquot_no_frac = Some v /\ comp_of_str v = Some c /\ c <> CALL).
   { intros x Hx. destruct (finditer_group_set _ _ _ _ single_aliquot_unpacker_regex_g_aliquot_no_frac Hx) as (v & Hv); [vm_compute; reflexivity | cbv; repeat constructor|].
